@@ -1,10 +1,273 @@
-import DiscretModel.Model.DataModel
+import DiscretModel.Lemmas.DataModel
 import DiscretModel.Gen.Consts
 /-
-C15 — placeholder while the proofs are being written (plumbing test).
+C15 — changing the data model never loses data and a refused change changes nothing.
+
+Model: `Model/DataModel.lean` (AST level model of `data_model_parser.rs` and of the load / update /
+persist cycle of `graph_database.rs`). All statements quantify over every model, every version, every
+history of versions (user and system), every hash-map visit order `pri` — no bound.
+
+`Defects.asImplemented` is `Defects.none` since the two deviations found by this check were fixed in
+/repo (e35fd01, fb21964): the full statements below are about the code as it is now. The two
+`C15_breaks_*` witnesses and `C15_partial` describe the code before the fixes (`Defects.beforeFixes`),
+i.e. what a revert of either fix brings back; the replays in corpus/C15 exhibit the same on the real code.
 -/
 namespace Discret.DM
 
-theorem C15_consts_reserved : Gen.reservedShortNames = reservedShort := by decide
+/-- the theorems stated for `Defects.none` are about the code as implemented -/
+theorem C15_code_is_intended : Defects.asImplemented = Defects.none := rfl
+
+/-! ### short ids never change -/
+
+/-- **C15 (ids never change).** Along every history — accepted or refused versions, any defects, any
+    visit order — every namespace, entity and field that exists keeps its storage id (and its type). -/
+theorem C15_ids_never_change (d : Defects) (m : Model) (steps : List Step) (n e f : String) :
+    (∀ i, m.nsId n = some i → (runSteps d m steps).nsId n = some i) ∧
+    (∀ k, m.entK n e = some k → (runSteps d m steps).entK n e = some k) ∧
+    (∀ s, m.fieldShort n e f = some s → (runSteps d m steps).fieldShort n e f = some s) ∧
+    (∀ fd, m.findField n e f = some fd →
+      ∃ fd', (runSteps d m steps).findField n e f = some fd' ∧ fd'.short = fd.short ∧ fd'.ty = fd.ty) :=
+  have h := runSteps_ext d m steps
+  ⟨fun _ hi => h.nsId hi, fun _ hk => h.entK hk, fun _ hs => h.fieldShort hs, fun _ hf => h.findField hf⟩
+
+/-! ### short ids are pairwise distinct -/
+
+/-- **C15 (ids never collide).** In every model reached from the empty one: namespace ids are distinct,
+    entity numbers are distinct inside a namespace, field ids are distinct inside an entity, and the
+    storage name of an entity (`"k"` / `"ns.k"`) identifies it among all entities of the model. -/
+theorem C15_ids_distinct (steps : List Step) :
+    let m := runSteps Defects.none Model.empty steps
+    (m.nss.map (·.id)).Nodup ∧
+    (∀ n ∈ m.nss, (n.ents.map (·.k)).Nodup ∧ ∀ e ∈ n.ents, (e.fields.map (·.short)).Nodup) ∧
+    (∀ n₁ ∈ m.nss, ∀ n₂ ∈ m.nss, ∀ e₁ ∈ n₁.ents, ∀ e₂ ∈ n₂.ents,
+        entShort n₁ e₁ = entShort n₂ e₂ → n₁ = n₂ ∧ e₁ = e₂) :=
+  (runSteps_wf Defects.none rfl rfl Model.empty steps wf_empty).distinct
+
+/-! ### short ids are a function of the accepted versions only -/
+
+/-- **C15 (ids are the positions in the accepted text).** After an accepted user version the ids of the
+    user part of the model are exactly those the parser gives to that text, whatever the model was before. -/
+theorem C15_ids_positional (pri : List Key) (m m' : Model) (v : Version) (hm : m.WF)
+    (h : update Defects.none pri m v = (m', none)) :
+    ∃ nv, parse 1 v = .ok nv ∧ ∀ n, n ≠ sysNs → ∀ e f,
+      m'.nsId n = nv.nsId n ∧ m'.entK n e = nv.entK n e ∧ m'.fieldShort n e f = nv.fieldShort n e f := by
+  rw [update_eq_applyV] at h
+  obtain ⟨nv, hp, hnv, hacc, heq⟩ := applyV_ok h
+  refine ⟨nv, hp, fun n hn e f => ?_⟩
+  have hs : m'.SameUserIds nv := by rw [heq]; exact merged_sameUserIds pri Defects.none rfl m nv hm hnv hacc
+  exact ⟨hs.nsId hn, hs.entK hn e, hs.fieldShort hn e f⟩
+
+/-- **C15 (peers agree).** Two peers with different pasts and different hash seeds that accept the same
+    version carry the same ids for everything the version describes. -/
+theorem C15_peers_agree (pri₁ pri₂ : List Key) (m₁ m₂ m₁' m₂' : Model) (v : Version) (h₁ : m₁.WF) (h₂ : m₂.WF)
+    (a₁ : update Defects.none pri₁ m₁ v = (m₁', none)) (a₂ : update Defects.none pri₂ m₂ v = (m₂', none)) :
+    ∀ n, n ≠ sysNs → ∀ e f,
+      m₁'.nsId n = m₂'.nsId n ∧ m₁'.entK n e = m₂'.entK n e ∧ m₁'.fieldShort n e f = m₂'.fieldShort n e f := by
+  obtain ⟨nv, hp, k₁⟩ := C15_ids_positional pri₁ m₁ m₁' v h₁ a₁
+  obtain ⟨nv', hp', k₂⟩ := C15_ids_positional pri₂ m₂ m₂' v h₂ a₂
+  rw [hp] at hp'; cases hp'
+  intro n hn e f
+  obtain ⟨x1, x2, x3⟩ := k₁ n hn e f
+  obtain ⟨y1, y2, y3⟩ := k₂ n hn e f
+  exact ⟨x1.trans y1.symm, x2.trans y2.symm, x3.trans y3.symm⟩
+
+/-- **C15 (accepted versions only).** The model after a history is the model after its accepted steps
+    alone, and does not depend on the hash-map visit orders: it is a function of the sequence of accepted
+    versions. -/
+theorem C15_accepted_versions_only (m : Model) (steps steps' : List Step)
+    (h : sameVersions (acceptedSteps Defects.none m steps) steps') :
+    runSteps Defects.none m steps = runSteps Defects.none m steps' := by
+  rw [runSteps_accepted Defects.none rfl m steps]
+  exact runSteps_pri Defects.none rfl rfl m _ _ h
+
+/-- acceptance itself and the resulting model do not depend on the visit order -/
+theorem C15_visit_order_irrelevant (pri pri' : List Key) (system : Bool) (m : Model) (v : Version) :
+    (applyV Defects.none pri system m v).1 = (applyV Defects.none pri' system m v).1 ∧
+    ((applyV Defects.none pri system m v).2 = none ↔ (applyV Defects.none pri' system m v).2 = none) :=
+  applyV_pri Defects.none rfl rfl pri pri' system m v
+
+/-! ### existing rows stay readable, new fields read null or their default -/
+
+/-- **C15 (values read back).** A value stored under a field's short id is returned under the same field
+    name by every later model of the history (any defects: this only needs the ids to be stable). -/
+theorem C15_values_read_back (d : Defects) (m : Model) (steps : List Step) (n e f : String) (fd : Field)
+    (hf : m.findField n e f = some fd) (row : Row) (val : String) (hv : row.lookup fd.short = some val) :
+    read m n e f row = some (some val) ∧ read (runSteps d m steps) n e f row = some (some val) :=
+  read_preserved (runSteps_ext d m steps) hf row val hv
+
+/-- **C15 (new fields read default or null).** A row written under model `m` (its keys are short ids of
+    fields of its entity in `m`), read through a later model for a field the entity did not have in `m`,
+    gives that field's default, or null. -/
+theorem C15_new_fields_read_default_or_null (m : Model) (steps : List Step) (hm : m.WF) (n e f : String)
+    (ent : Entity) (fd' : Field) (he : m.findEntity n e = some ent) (hnew : ent.findField f = none)
+    (hf' : (runSteps Defects.none m steps).findField n e f = some fd')
+    (row : Row) (hrow : ∀ p ∈ row, ∃ g ∈ ent.fields, g.short = p.1) :
+    read (runSteps Defects.none m steps) n e f row = some (fd'.dflt.map (·.tok)) :=
+  read_new_field hm (runSteps_wf Defects.none rfl rfl m steps hm) (runSteps_ext Defects.none m steps) he hnew hf' row hrow
+
+/-! ### a refused version changes nothing; the same text again changes nothing -/
+
+/-- **C15 (refused ⇒ unchanged).** -/
+theorem C15_refused_changes_nothing (pri : List Key) (system : Bool) (m : Model) (v : Version) (e : Err)
+    (h : (applyV Defects.none pri system m v).2 = some e) : (applyV Defects.none pri system m v).1 = m :=
+  applyV_refused Defects.none rfl pri system m v e h
+
+/-- the same at instance level: a refused run-time update leaves the live and the stored model as they were -/
+theorem C15_refused_update_instance (pri : List Key) (sysV : Version) (s : Inst) (v : Version) (e : Err) (live : Model)
+    (hl : s.live = some live) (hstored : s.stored = some live)
+    (hsys : (updateSystem Defects.none pri live sysV) = (live, none))
+    (h : (s.updateLive Defects.none pri sysV v).2 = some e) :
+    (s.updateLive Defects.none pri sysV v).1 = s := by
+  unfold Inst.updateLive at h ⊢
+  simp only [hl, loadAndUpdate, hstored, Option.getD_some, hsys] at h ⊢
+  have hr := C15_refused_changes_nothing pri false live v
+  rw [← update_eq_applyV] at hr
+  cases hu : update Defects.none pri live v with
+  | mk m2 r =>
+    rw [hu] at h hr
+    cases r with
+    | none => simp at h
+    | some e' =>
+      have := hr e' rfl
+      simp only at this
+      subst this
+      cases s
+      simp_all
+
+/-- **C15 (the same text again).** Re-applying an accepted version is accepted and changes nothing. -/
+theorem C15_same_text_changes_nothing (pri pri' : List Key) (m m' : Model) (v : Version) (hm : m.WF)
+    (h : update Defects.none pri m v = (m', none)) : update Defects.none pri' m' v = (m', none) := by
+  rw [update_eq_applyV] at h ⊢
+  exact applyV_idem Defects.none rfl pri pri' false m m' v hm h
+
+/-- **C15 (restart on the same model).** An instance that started (or restarted) on a model text restarts
+    on the same text, with any other hash seeds, into exactly the same stored and live model. -/
+theorem C15_restart_same_model (pri pri' : List Key) (sysV : Version) (s s' : Inst) (v : Version)
+    (hs : (s.stored.getD Model.empty).WF) (h : s.start Defects.none pri sysV v = (s', none)) :
+    s'.start Defects.none pri' sysV v = (s', none) := by
+  unfold Inst.start at h
+  cases hl : loadAndUpdate Defects.none pri sysV s.stored v with
+  | mk m r =>
+    rw [hl] at h
+    cases r with
+    | some e => simp at h
+    | none =>
+      simp only [Prod.mk.injEq, and_true] at h
+      subst h
+      have := loadAndUpdate_restart Defects.none rfl pri pri' sysV s.stored v m hs hl
+      unfold Inst.start
+      simp only [this]
+
+/-! ### the constants of `system_entities.rs` (regenerated table, T6) -/
+
+/-- id of entity `ns.e` and of its field `f` in a parsed model -/
+def shortOf (m : Model) (n e f : String) : Option Nat := m.fieldShort n e f
+
+def entIdOf (m : Model) (n e : String) : Option (Nat × Nat) :=
+  (m.findNs n).bind fun ns => (ns.findEnt e).map fun x => (ns.id, x.k)
+
+set_option maxRecDepth 100000 in
+/-- **C15 (hard-coded short names are the positional ones).** `RESERVED_SHORT_NAMES`, the keys of
+    `SYSTEM_FIELDS` and every `*_SHORT` constant of `system_entities.rs` agree with what `update_system`
+    computes from `SYSTEM_DATA_MODEL` (all regenerated from the source on every run). -/
+theorem C15_system_constants :
+    Gen.reservedShortNames = reservedShort ∧ Gen.systemNamespace = sysNs ∧
+    (∀ x ∈ Gen.systemFieldNames, x ∈ systemFields) ∧ (∀ x ∈ systemFields, x ∈ Gen.systemFieldNames) ∧
+    Gen.unmappedConsts = [] ∧
+    (updateSystem Defects.none [] Model.empty Gen.sysVersion).2 = none ∧
+    (∀ c ∈ Gen.entityShortConsts,
+      entIdOf (updateSystem Defects.none [] Model.empty Gen.sysVersion).1 c.1 c.2.1 = some c.2.2) ∧
+    (∀ c ∈ Gen.fieldShortConsts,
+      shortOf (updateSystem Defects.none [] Model.empty Gen.sysVersion).1 Gen.systemNamespace c.1 c.2.1 = some c.2.2) := by
+  decide
+
+/-! ### witnesses: what the two defects did (the code before the fixes) -/
+
+private def fI (n : String) (nullable : Bool) : AField :=
+  { name := n, cls := .ok, ty := .int, nullable := nullable, dflt := none, deprecated := false }
+private def fS (n : String) (nullable : Bool) : AField :=
+  { name := n, cls := .ok, ty := .str, nullable := nullable, dflt := none, deprecated := false }
+private def ent (n : String) (dep : Bool) (fs : List AField) : AEntity :=
+  { name := n, cls := .ok, deprecated := dep, fullText := true, fields := fs, indexes := [] }
+
+/-- `{ P { a : Integer } }` -/
+def wV1 : Version := [{ name := "", ents := [ent "P" false [fI "a" false]] }]
+/-- `{ P { a : Integer, b : Integer nullable, c : Integer nullable } }` -/
+def wV2 : Version := [{ name := "", ents := [ent "P" false [fI "a" false, fI "b" true, fI "c" true]] }]
+
+def onlyHashOrder : Defects := { hashOrderIds := true, partialRefusal := false }
+def onlyPartial : Defects := { hashOrderIds := false, partialRefusal := true }
+
+set_option maxRecDepth 100000 in
+/-- **C15_breaks_hashOrderIds** (data_model_parser.rs:1038-1051 before e35fd01). Two fields added in one
+    version, visited in the order `c, b`: the version is accepted, `b` gets id 34 while a peer that visits
+    them in text order (or starts on the same text) gives it 33 — `C15_peers_agree` fails — and the
+    instance refuses its own model at the next start — `C15_same_text_changes_nothing` fails. -/
+theorem C15_breaks_hashOrderIds :
+    let m1 := (update onlyHashOrder [] Model.empty wV1).1
+    let a := update onlyHashOrder [.fld "" "P" "c", .fld "" "P" "b"] m1 wV2
+    let b := update onlyHashOrder [] m1 wV2
+    a.2 = none ∧ b.2 = none ∧ a.1.fieldShort "" "P" "b" = some 34 ∧ b.1.fieldShort "" "P" "b" = some 33 ∧
+      (update onlyHashOrder [] a.1 wV2).2 = some .invalidFieldOrdering := by
+  decide
+
+/-- `{ P { a : Integer, b : String nullable, z : Integer } }` — `z` has no default: refused -/
+def wBad : Version := [{ name := "", ents := [ent "P" false [fI "a" false, fS "b" true, fI "z" false]] }]
+/-- `{ P { a : Integer, c : String nullable, b : String nullable } }` — valid with respect to `wV1` -/
+def wV3 : Version := [{ name := "", ents := [ent "P" false [fI "a" false, fS "c" true, fS "b" true]] }]
+/-- `{ @deprecated P { a : String } }` — retyped field: refused -/
+def wRetyped : Version := [{ name := "", ents := [ent "P" true [fS "a" false]] }]
+
+set_option maxRecDepth 100000 in
+/-- **C15_breaks_partialRefusal** (data_model_parser.rs:304-379, 987-1063 before fb21964). A refused
+    version leaves the model modified (`deprecated` is assigned before the field checks; fields visited
+    before the failing one are inserted) — `C15_refused_changes_nothing` fails. On an instance the live
+    model then accepts a write through the half-added field `b` (id 33); the next accepted version gives
+    33 to `c`: the value written as `b` is read back as `c` and `b` reads null. -/
+theorem C15_breaks_partialRefusal :
+    let m1 := (update onlyPartial [] Model.empty wV1).1
+    ((update onlyPartial [] m1 wRetyped).2 = some .cannotUpdateFieldType ∧ (update onlyPartial [] m1 wRetyped).1 ≠ m1) ∧
+    (let s0 := (Inst.fresh.start onlyPartial [] [] wV1).1
+     let s1 := s0.updateLive onlyPartial [.fld "" "P" "b"] [] wBad
+     let s2 := s1.1.put "" "P" 1 [("a", .int, "1"), ("b", .str, "secret")]
+     let s3 := s2.1.updateLive onlyPartial [] [] wV3
+     s1.2 = some .missingDefaultValue ∧ s2.2 = none ∧ s3.2 = none ∧
+       (match s3.1.get "" "P" ["a", "b", "c"] with | .ok rows => rows | .error _ => [])
+         = [(1, [("a", some "1"), ("b", none), ("c", some "secret")])]) := by
+  decide
+
+/-- **C15_partial** (the code before the fixes, under a decidable guard). When the version is accepted and
+    brings at most one new field to each existing entity, the model with both defects computes exactly
+    what the intended behaviour computes — so every theorem above applies to that step. What is missing:
+    versions adding several fields to one entity (`hashOrderIds`) and refused versions (`partialRefusal`). -/
+theorem C15_partial (pri : List Key) (system : Bool) (m m' : Model) (v : Version)
+    (hg : oneFreshGuard system m v = true) (h : applyV Defects.beforeFixes pri system m v = (m', none)) :
+    applyV Defects.none pri system m v = (m', none) :=
+  applyV_single Defects.beforeFixes pri system m m' v hg h
+
+/-! ### non-vacuity -/
+
+set_option maxRecDepth 100000 in
+-- an accepted update of a non-empty well-formed model that adds two fields (hypotheses of
+-- C15_ids_positional / C15_peers_agree / C15_same_text_changes_nothing)
+example : (update Defects.none [] (update Defects.none [] Model.empty wV1).1 wV2).2 = none ∧
+    (update Defects.none [] (update Defects.none [] Model.empty wV1).1 wV2).1.fieldShort "" "P" "c" = some 34 := by decide
+
+example : (update Defects.none [] Model.empty wV1).1.WF :=
+  applyV_wf Defects.none rfl rfl [] false Model.empty wV1 wf_empty
+
+set_option maxRecDepth 100000 in
+-- a refused version on a non-empty model (hypothesis of C15_refused_changes_nothing)
+example : (applyV Defects.none [] false (update Defects.none [] Model.empty wV1).1 wBad).2 = some .missingDefaultValue := by decide
+
+set_option maxRecDepth 100000 in
+-- the guard of C15_partial holds for an accepted version that adds one field, and fails for wV2
+example : oneFreshGuard false (update Defects.beforeFixes [] Model.empty wV1).1
+      [{ name := "", ents := [ent "P" false [fI "a" false, fI "b" true]] }] = true ∧
+    oneFreshGuard false (update Defects.beforeFixes [] Model.empty wV1).1 wV2 = false := by decide
+
+set_option maxRecDepth 100000 in
+-- a started instance holding a row (hypotheses of C15_restart_same_model / C15_values_read_back)
+example : ((Inst.fresh.start Defects.none [] Gen.sysVersion wV1).2 = none) := by decide
 
 end Discret.DM
